@@ -110,7 +110,14 @@ def check(c):
                  n.value, (ast.ListComp, ast.SetComp))]
     for n in comps:
         g = n.value
-        filt = [norm(i) for gen in g.generators for i in gen.ifs]
+        def unwalrus(e):
+            """`(nxt := f(x)) is not None` reads as `nxt is not None`."""
+            class W(ast.NodeTransformer):
+                def visit_NamedExpr(self, n):
+                    return ast.Name(id=n.target.id, ctx=ast.Load())
+            import copy
+            return norm(W().visit(copy.deepcopy(e)))
+        filt = [unwalrus(i) for gen in g.generators for i in gen.ifs]
         c.ob('C31.next-child', c.key(n, gc)[:110] + ' drops None',
              f'{norm(g.elt)} is not None' in filt, c.where(n, gc),
              f'filters {filt}')
